@@ -433,10 +433,18 @@ def run_encode(res):
             # 'equal' must mean something: address-type instructions that differ in the opcode or in the address
             # are different instructions (non-address opcodes and the NOP aliases legitimately ignore low bits)
             res.count("inequalities_checked")
-            for w2 in (w ^ 1, w ^ 0x800, (w ^ 0x1000) & 0x7FFF):
-                if ToyInstruction.from_integer(w2) == i:
+            # ... and an address-type instruction is no instruction without an address (same low bits, opcodes 8, 12, 13)
+            for w2 in (w ^ 1, w ^ 0x800, (w ^ 0x1000) & 0x7FFF, (w & 0xFFF) | 0x8000, (w & 0xFFF) | 0xC000, (w & 0xFFF) | 0xD000):
+                if ToyInstruction.from_integer(w2) == i or i == ToyInstruction.from_integer(w2):
                     res.violation("C19", "equality-too-weak", "the instructions decoded from %#06x and %#06x compare equal" % (w, w2), {"kind": "word", "word": w})
                     return
+    # the instructions without an address differ from each other by their opcode (13..15 are NOP aliases)
+    for op in range(8, 13):
+        for op2 in range(8, 14):
+            res.count("inequalities_checked")
+            if op != op2 and not (op >= 12 and op2 >= 12) and (ToyInstruction.from_integer(op << 12) == ToyInstruction.from_integer((op2 << 12) | 5)):
+                res.violation("C19", "equality-too-weak", "the instructions decoded from %#06x and %#06x compare equal" % (op << 12, (op2 << 12) | 5), {"kind": "word", "word": op << 12})
+                return
     res.evaluations += 1 << 16
     # every assembler-constructible instruction: opcode in the top four bits, address in the low twelve
     for m in MNEMONICS:
